@@ -782,6 +782,14 @@ class Repository:
                 contents = self._get_cached(path)
             except FileNotFoundError:
                 pass
+            else:
+                # The cache is not trusted any more than the backend is: an entry
+                # that was truncated by an interrupted write (or replaced) is
+                # discarded and the snapshot is downloaded again
+                if self.props.hash_digest(contents) != expected_digest:
+                    logger.info('Cached copy of %s is damaged, discarding it', path)
+                    self._delete_cached(path)
+                    contents = None
 
         if contents is None:
             contents = self._download_threadsafe(path, loop=loop)
